@@ -1,6 +1,8 @@
 package p2p
 
 import (
+	"fmt"
+
 	node_common "github.com/alephium/wormhole-fork/node/pkg/common"
 	gossipv1 "github.com/alephium/wormhole-fork/node/pkg/proto/gossip/v1"
 	"github.com/alephium/wormhole-fork/node/pkg/zzverif"
@@ -9,38 +11,88 @@ import (
 	"github.com/libp2p/go-libp2p/core/peer"
 )
 
-// A signed heartbeat is accepted only if it is long enough, and its signature - over the PREFIXED body - recovers
-// to the claimed address, which must be in the set; a rejected heartbeat leaves the table unchanged.
-func VerifC03_Heartbeat() {
-	n := zzverif.Len("n", 0, 1, 2)
+const (
+	verifHBPrefix  = "heartbeat|"
+	verifReqPrefix = "signed_observation_request|"
+)
+
+func verifP2PSet(n int) *node_common.GuardianSet {
 	keys := make([]common.Address, n)
 	for i := range keys {
 		keys[i] = common.Address(zzverif.AddrOf(i))
 	}
-	gs := &node_common.GuardianSet{Keys: keys}
-	gst := node_common.NewGuardianSetState(nil)
-	L := zzverif.Len("L", 0, 1, 23, 24, 25)
-	body := zzverif.Bytes("body", L)
-	claimed := zzverif.Bytes("claimed", 20)
+	return &node_common.GuardianSet{Keys: keys}
+}
 
-	// what an honest signer would have signed
-	good := ethcrypto.Keccak256Hash(append([]byte("heartbeat|"), body...))
-	// cross-domain material an attacker may hold: signatures by members over other pre-images
+// the signature an attacker may present for a message with body `body`: made by some key over the digest under the
+// RIGHT domain prefix, by a member over the BARE body hash (the 32-byte pre-image shape of a VAA digest), by a member
+// under the OTHER message type's prefix (cross-type replay), or 64/65/66 arbitrary bytes.
+func verifP2PSig(body []byte, right, other string) []byte {
+	good := ethcrypto.Keccak256Hash(append([]byte(right), body...))
 	bare := ethcrypto.Keccak256Hash(body)
-	other := ethcrypto.Keccak256Hash(append([]byte("signed_observation_request|"), body...))
-
+	cross := ethcrypto.Keccak256Hash(append([]byte(other), body...))
+	vaaLike := ethcrypto.Keccak256Hash(bare[:]) // what a VAA signature is made over: keccak of a 32-byte pre-image
 	var sig []byte
-	switch zzverif.Len("sigkind", 0, 1, 2, 3) {
+	switch zzverif.Len("sigkind", 0, 1, 2, 3, 4) {
 	case 0:
 		sig = zzverif.SignBy(zzverif.Len("signer", 0, 1, 2), good[:])
 	case 1:
 		sig = zzverif.SignBy(zzverif.Len("signer", 0, 1), bare[:])
 	case 2:
-		sig = zzverif.SignBy(zzverif.Len("signer", 0, 1), other[:])
+		sig = zzverif.SignBy(zzverif.Len("signer", 0, 1), cross[:])
+	case 3:
+		sig = zzverif.SignBy(zzverif.Len("signer", 0, 1), vaaLike[:])
 	default:
-		sig = zzverif.Bytes("rawsig", zzverif.Len("siglen", 64, 65))
+		sig = zzverif.Blob("rawsig", zzverif.Len("siglen", 64, 65, 66))
 	}
 	zzverif.AssumeCollisionFree()
+	return sig
+}
+
+// the address the envelope claims: a harness key's address (0,1: members when the set is large enough, 2: outsider), 20
+// arbitrary bytes, no bytes, 21 bytes. (Scenario-level choice so that counterexamples replay with the real keys.)
+func verifP2PClaimed() []byte {
+	switch k := zzverif.Len("claimed", 0, 1, 2, 3, 4, 5); k {
+	case 0, 1, 2:
+		a := zzverif.AddrOf(k)
+		return a[:]
+	case 3:
+		return zzverif.Blob("claimedraw", 20)
+	case 4:
+		return nil
+	default:
+		return zzverif.Blob("claimedraw", 21)
+	}
+}
+
+// bodies: arbitrary bytes, or (form 1) bytes that are certainly a well-formed protobuf message of the expected type -
+// one length-delimited field filling the whole body - so that an accepted counterexample also replays on real protobuf
+func verifP2PBody(L int, tag byte) []byte {
+	body := zzverif.Bytes("body", L)
+	if zzverif.Len("bodyform", 0, 1) == 1 {
+		zzverif.Assume(L >= 2 && L < 130)
+		if L >= 2 {
+			zzverif.Assume(body[0] == tag && int(body[1]) == L-2)
+			for i := 2; i < L; i++ {
+				zzverif.Assume(body[i] < 0x80 && body[i] >= 0x20)
+			}
+		}
+	}
+	return body
+}
+
+// C03: a signed heartbeat changes the heartbeat table only if it is long enough, its signature - over the body under the
+// heartbeat prefix - recovers to the address the envelope claims, and that address is in the guardian set; it is stored
+// under the recovered signer; a rejected heartbeat leaves the table untouched.
+func VerifC03_Heartbeat() {
+	n := zzverif.Len("n", 0, 1, 2)
+	gs := verifP2PSet(n)
+	gst := node_common.NewGuardianSetState(nil)
+	L := zzverif.Len("L", 0, 1, 22, 23, 24, 25, 40)
+	body := verifP2PBody(L, 0x0a) // Heartbeat field 1: node_name (string)
+	claimed := verifP2PClaimed()
+	sig := verifP2PSig(body, verifHBPrefix, verifReqPrefix)
+	good := ethcrypto.Keccak256Hash(append([]byte(verifHBPrefix), body...))
 	s := &gossipv1.SignedHeartbeat{Heartbeat: body, Signature: sig, GuardianAddr: claimed}
 	var hb *gossipv1.Heartbeat
 	var err error
@@ -52,7 +104,7 @@ func VerifC03_Heartbeat() {
 		return
 	}
 	zzverif.Reach("accepted")
-	zzverif.Assert(len("heartbeat|")+L >= 34, "length-floor")
+	zzverif.Assert(len(verifHBPrefix)+L >= 34, "length-floor")
 	pk, rerr := ethcrypto.Ecrecover(good[:], sig)
 	zzverif.Assert(rerr == nil, "recovers-over-prefixed-digest")
 	if rerr != nil {
@@ -65,4 +117,62 @@ func VerifC03_Heartbeat() {
 	all := gst.GetAll()
 	_, stored := all[signer]
 	zzverif.Assert(stored && len(all) == 1, "stored-under-signer")
+}
+
+// C03: same for re-observation requests under their own prefix; only an accepted request is returned for forwarding.
+func VerifC03_ObservationRequest() {
+	n := zzverif.Len("n", 0, 1, 2)
+	gs := verifP2PSet(n)
+	L := zzverif.Len("L", 0, 1, 5, 6, 7, 8, 40)
+	body := verifP2PBody(L, 0x12) // ObservationRequest field 2: tx_hash (bytes)
+	claimed := verifP2PClaimed()
+	sig := verifP2PSig(body, verifReqPrefix, verifHBPrefix)
+	good := ethcrypto.Keccak256Hash(append([]byte(verifReqPrefix), body...))
+	s := &gossipv1.SignedObservationRequest{ObservationRequest: body, Signature: sig, GuardianAddr: claimed}
+	var req *gossipv1.ObservationRequest
+	var err error
+	zzverif.NoPanic(func() { req, err = processSignedObservationRequest(s, gs) })
+	if err != nil {
+		zzverif.Reach("rejected")
+		zzverif.Assert(req == nil, "nothing-forwarded-on-reject")
+		return
+	}
+	zzverif.Reach("accepted")
+	zzverif.Assert(len(verifReqPrefix)+L >= 34, "length-floor")
+	pk, rerr := ethcrypto.Ecrecover(good[:], sig)
+	zzverif.Assert(rerr == nil, "recovers-over-prefixed-digest")
+	if rerr != nil {
+		return
+	}
+	signer := common.BytesToAddress(ethcrypto.Keccak256(pk[1:])[12:])
+	zzverif.Assert(signer == common.BytesToAddress(claimed), "signer-is-claimed")
+	_, in := gs.KeyIndex(signer)
+	zzverif.Assert(in, "signer-in-set")
+}
+
+// C03: the heartbeat table never holds more than MaxNodesPerGuardian node entries per guardian: from a table with k
+// entries for one guardian (every k up to the cap), storing a heartbeat from a new or a known peer keeps it <= cap.
+func VerifC03_HeartbeatCap() {
+	gst := node_common.NewGuardianSetState(nil)
+	addr := common.Address(zzverif.AddrOf(0))
+	k := zzverif.LenRange("k", 0, 16)
+	for i := 0; i < k; i++ {
+		_ = gst.SetHeartbeat(addr, peer.ID(fmt.Sprintf("peer-%02d", i)), &gossipv1.Heartbeat{Counter: int64(i)})
+	}
+	zzverif.Assert(len(gst.GetAll()[addr]) <= node_common.MaxNodesPerGuardian, "cap-while-filling")
+	who := zzverif.Len("who", 0, 1) // 0: a peer already in the table (if any), 1: a new peer
+	id := peer.ID("peer-00")
+	if who == 1 {
+		id = peer.ID("peer-new")
+	}
+	err := gst.SetHeartbeat(addr, id, &gossipv1.Heartbeat{Counter: 99})
+	tab := gst.GetAll()[addr]
+	zzverif.Assert(len(tab) <= node_common.MaxNodesPerGuardian, "cap")
+	if err != nil {
+		zzverif.Reach("refused")
+		zzverif.Assert(len(tab) == node_common.MaxNodesPerGuardian, "refused-only-at-the-cap")
+	} else {
+		zzverif.Reach("stored")
+		zzverif.Assert(tab[id] != nil && tab[id].Counter == 99, "stored-entry-is-the-new-heartbeat")
+	}
 }
